@@ -13,7 +13,7 @@ pub fn exec(toks: &[&str]) -> String {
     vclock::set(vclock::REALTIME, f[7], f[8]);
     vclock::set(vclock::MONOTONIC_COARSE, f[9], f[10]);
     vclock::enable();
-    let r = panic::catch_unwind(|| rec.now());
+    let r = guarded(|| rec.now());
     vclock::disable();
     match r { Ok(r) => now_text(r), Err(_) => "panic".into() }
 }
@@ -112,4 +112,22 @@ pub fn grid() -> Vec<String> {
         }
     }
     v
+}
+
+/// client2: one record, one realtime reading, two monotonic readings (the second not earlier)
+pub fn exec2(toks: &[&str]) -> String {
+    let a: Vec<&str> = toks[..12].to_vec();
+    let mut b: Vec<&str> = toks[..12].to_vec();
+    b[10] = toks[12]; b[11] = toks[13];
+    format!("{} ; {}", exec(&a), exec(&b))
+}
+
+pub fn gen_case2(rng: &mut Rng) -> String {
+    let base = gen_case(rng);
+    let t: Vec<&str> = base.split(' ').collect();
+    let ms: i64 = t[10].parse().unwrap();
+    let mn: i64 = t[11].parse().unwrap();
+    let d: i128 = match rng.below(6) { 0 => 0, 1 => 1, 2 => rng.range(1, 2000) as i128, 3 => NS as i128, 4 => rng.range(0, 100 * NS) as i128, _ => rng.range(0, 86_400 * NS) as i128 };
+    let (s2, n2) = if mn >= 0 && mn < NS && ms > -4_000_000_000 && ms < 4_000_000_000 { add_ns(ms, mn, d) } else { (ms, mn) };
+    format!("client2 {} {} {}", &base[7..], s2.min(2_147_483_648), n2)
 }
